@@ -271,7 +271,7 @@ fn frags_arc(f: &Fragment) -> (Point, Point) {
     }
 }
 
-fn rounded_complete(max_w: i32, max_h: i32, max_x: i32, max_y: i32) {
+fn rounded_complete(max_w: i32, max_h: i32, max_x: i32, max_y: i32, permute: bool) {
     // corner characters in cells (x0,y0) .. (x0+w, y0+h); sides run through the cell centres,
     // corner arcs have radius 0.5 as `. , ' \`` draw them between a horizontal and a vertical edge
     let w = any_in(2, max_w);
@@ -299,8 +299,8 @@ fn rounded_complete(max_w: i32, max_h: i32, max_x: i32, max_y: i32) {
     // the lines are permuted among the line slots and the arcs among the arc slots by
     // selecting their DATA with a symbolic permutation; two slot layouts (lines first /
     // interleaved) are explored by branching, so every Fragment has a concrete variant
-    let lp = any_perm();
-    let ap = any_perm();
+    let lp = if permute { any_perm() } else { [0, 1, 2, 3] };
+    let ap = if permute { any_perm() } else { [0, 1, 2, 3] };
     let ld = [(frags_line(&frags[0])), frags_line(&frags[1]), frags_line(&frags[2]), frags_line(&frags[3])];
     let ad = [frags_arc(&frags[4]), frags_arc(&frags[5]), frags_arc(&frags[6]), frags_arc(&frags[7])];
     let ml = |d: (Point, Point, bool)| Fragment::Line(Line::new(d.0, d.1, d.2));
@@ -326,18 +326,30 @@ fn rounded_complete(max_w: i32, max_h: i32, max_x: i32, max_y: i32) {
 }
 
 //@ harness: o5_3_rounded_complete props=C05 tier=quick obl=O5.3 timeout=2400 mem=20
-//@ desc: the 4 sides and 4 quarter arcs (radius 0.5) of every closed rounded box with w in 2..12, h in 2..6 cells at every origin <= (3,3), with the sides in any order among the line slots and the arcs in any order among the arc slots (two slot layouts: lines first, interleaved), any dashedness of the sides: endorse_rounded_rect returns exactly that rect with rx = 0.5; powf stubbed by exact square; bounded Vec
+//@ desc: the 4 sides and 4 quarter arcs (radius 0.5) of every closed rounded box with w in 2..8, h in 2..4 cells at origins <= (1,1), sides in the order top,bottom,left,right and arcs in the order TL,TR,BL,BR, two slot layouts (lines first / interleaved with the arcs), any dashedness of the sides: endorse_rounded_rect returns exactly that rect with rx = 0.5 and endorse_rect returns None; powf stubbed by exact square; bounded Vec
 //@ encodes: endorse::endorse_rounded_rect, endorse::is_rounded_rect, endorse::right_angle_arcs, endorse::parallel_aabb_group, Arc::is_aabb_right_angle_arc, Rect::rounded_new
 #[kani::proof]
-#[kani::stub(std::io::_print, crate::kstub::noop_print)]
 #[kani::unwind(18)]
 #[kani::stub(std::vec::Vec::new, crate::kstub::vec_new_cap)]
 #[kani::stub(std::vec::Vec::push, crate::kstub::push_nogrow)]
 #[kani::stub(f32::powf, crate::kstub::powf_sq)]
+#[kani::stub(std::io::_print, crate::kstub::noop_print)]
 fn o5_3_rounded_complete() {
-    rounded_complete(12, 6, 3, 3);
+    rounded_complete(8, 4, 1, 1, false);
 }
 
+//@ harness: o5_3_rounded_complete_anyorder props=C05 tier=thorough obl=O5.3 timeout=3400 mem=24
+//@ desc: as o5_3_rounded_complete for w in 2..12, h in 2..6, origins <= (3,3), with the sides in any order among the line slots and the arcs in any order among the arc slots
+//@ encodes: endorse::endorse_rounded_rect, endorse::is_rounded_rect, endorse::right_angle_arcs, endorse::parallel_aabb_group
+#[kani::proof]
+#[kani::unwind(18)]
+#[kani::stub(std::vec::Vec::new, crate::kstub::vec_new_cap)]
+#[kani::stub(std::vec::Vec::push, crate::kstub::push_nogrow)]
+#[kani::stub(f32::powf, crate::kstub::powf_sq)]
+#[kani::stub(std::io::_print, crate::kstub::noop_print)]
+fn o5_3_rounded_complete_anyorder() {
+    rounded_complete(12, 6, 3, 3, true);
+}
 
 //@ harness: o1_5_parallel_pairs_are_lines props=C01,C05 tier=quick obl=O1.5 timeout=1200 mem=12
 //@ desc: parallel_aabb_group on ANY 4 fragments whose variants are symbolic among Line (symbolic lattice payload), Arc, Circle, Rect, MarkerLine: every index pair it returns refers to two distinct Line fragments and no index occurs twice - so the as_line().expect("expecting a line") calls of is_rect / is_rounded_rect, which only index through these pairs, cannot fire; bounded Vec
